@@ -42,9 +42,9 @@ CHECKS = {
     'C07': dict(engine=E2, technique='symbolic execution (llsym/z3) of the IR of message<X>::decode<E> on L fully symbolic input bytes per length L, with executed libstdc++ vector growth; bounds check on every access, poison tracking, allocation-request bound, unwinding assertions',
                 text='Bounded symbolic model checking: for each shape and input length L, ALL 256^L inputs: no access outside [data, data+L) or owned objects, no abort, every operator new request <= 2*R*L+64, true only if exactly L bytes consumed, accepted inputs re-encode to exactly L bytes (get_byte_size and encode).',
                 note='Trusted: clang-14 -O1, llsym + stubs (operator new/delete, memset/memmove, bswap, assume, __assert_fail, __throw_*), z3; 8-byte aligned buffers. Replay under ASan/UBSan with an operator new that records the largest request.', ref='DESIGN 4 C07'),
-    'C13': dict(engine=E1, technique='symbolic execution (CrossHair/z3) of prophyc units: topological_sort with a fuel counter over every dependency relation incl. cycles; parser/calc expression actions with symbolic constant values (zero divisors, negative shifts, truncated expressions); FileProcessor + p_include_def over a stub file system with a symbolic include matrix',
+    'C13': dict(engine=E1, technique='symbolic execution (CrossHair/z3) of prophyc units: topological_sort with a fuel counter over every dependency relation incl. cycles; evaluate_model on type definitions that name each other or themselves (fuel on typedef chains); isar element builders with symbolic attribute presence and patch lines with symbolic words (only designed exceptions may surface); option/generator output-directory contract with a symbolic file-system answer; z3 ambiguity queries on the token regexes of the lexers (E3); parser/calc expression actions with symbolic constant values (zero divisors, negative shifts, truncated expressions); FileProcessor + p_include_def over a stub file system with a symbolic include matrix',
                 text='Bounded symbolic model checking at unit level: termination within the fuel bound or ModelError; only designed error types surface; each file processed once; missing/cyclic includes reported. Whole-program symbolic text is not encodable and is outside the claim.',
-                note='Trusted: CrossHair+patches (incl. patch 8: int(str(i)) == i kept symbolic), z3, the in-memory file-system stub. Bounds: <=3 (4 thorough) definitions, 23 expression shapes, 3 files.', ref='DESIGN 4 C13'),
+                note='Trusted: CrossHair+patches (incl. patch 8: int(str(i)) == i kept symbolic), z3, the in-memory file-system stub. Bounds: <=3 (4 thorough) definitions, 23 expression shapes, 3 files, 8 attribute-presence bits per isar element kind, one patch line, regex alternatives that are single character classes over characters 0..127.', ref='DESIGN 4 C13'),
     'C14': dict(engine=E1, technique='symbolic execution (CrossHair/z3) of the real ply parser actions, calc and model evaluators on concrete expression texts whose named constants are symbolic integers, against an independent precedence-climbing reference evaluator',
                 text='Bounded symbolic model checking: for every operator sequence (<=2 binary operators quick, <=3 thorough) and all values of A,B,C in [-2^64,2^64]: parse-time value == reference == calc.eval == _collect_constants == to_int == numeric_size; a later reference to the constant reads the same integer.',
                 note='Trusted: CrossHair+patches (patch 8), z3, reference evaluator in vf/exprharness.py. C++/Python literal text for symbolic values is outside (string formatting); checked concretely on boundary values and reported separately.', ref='DESIGN 4 C14'),
